@@ -119,26 +119,42 @@ def contraction_list(shells):
     return out
 
 
-def overlap_oracle(basis0, coords0, basis1=None, coords1=None, conventions_std=None):
-    """Overlap in the *standard* ordering (Cartesian alphabetical, pure c0 c1 s1 ...); the caller applies conventions."""
+def overlap_oracle(basis0, coords0, basis1=None, coords1=None, conventions_std=None, screened=None):
+    """Overlap in the *standard* ordering (Cartesian alphabetical, pure c0 c1 s1 ...); the caller applies conventions.
+
+    With screened=<threshold> a second matrix is returned: the part of the result that comes from pairs of primitives
+    whose Gaussian-product prefactor exp(-a b |A-B|^2 / (a+b)) lies below the threshold, or from pairs of shells for which
+    that holds for the two smallest exponents (what an implementation that screens on the prefactor leaves out)."""
     c0 = contraction_list(basis0.shells)
     c1 = c0 if basis1 is None else contraction_list(basis1.shells)
     X0 = np.asarray(coords0, float)
     X1 = X0 if basis1 is None else np.asarray(coords1, float)
-    blocks = []
+    blocks, dblocks = [], []
     for ic, l, k, ex, co in c0:
-        row = []
+        row, drow = [], []
         for jc, l2, k2, ex2, co2 in c1:
-            blk = 0.0
+            blk, dblk = 0.0, np.zeros((len(cart_powers(l)), len(cart_powers(l2))))
+            r2 = float(np.dot(X0[ic] - X1[jc], X0[ic] - X1[jc]))
+            amin, bmin = float(np.min(ex)), float(np.min(ex2))
+            shell_out = screened is not None and not (math.exp(-amin * bmin * r2 / (amin + bmin)) > screened)
             for a, ca in zip(ex, co):
                 for b, cb in zip(ex2, co2):
-                    blk = blk + ca * cb * prim_block(l, a, X0[ic], l2, b, X1[jc])
+                    term = ca * cb * prim_block(l, a, X0[ic], l2, b, X1[jc])
+                    blk = blk + term
+                    if screened is not None and (shell_out or math.exp(-a * b / (a + b) * r2) < screened):
+                        dblk = dblk + term
             if k == "p":
                 blk = tf_matrix(l) @ blk
+                dblk = tf_matrix(l) @ dblk
             if k2 == "p":
                 blk = blk @ tf_matrix(l2).T
+                dblk = dblk @ tf_matrix(l2).T
             row.append(blk)
+            drow.append(dblk)
         blocks.append(np.hstack(row))
+        dblocks.append(np.hstack(drow))
+    if screened is not None:
+        return np.vstack(blocks), np.vstack(dblocks)
     return np.vstack(blocks)
 
 
